@@ -138,7 +138,9 @@ func DrawPath(t *rapid.T, o PathOpts) Path {
 		if kind == "descent" && (o.NoDescent || (i == n-1 && o.NoTrailingDescent)) {
 			kind = "child"
 		}
-		if rapid.IntRange(0, 14).Draw(t, "brk") == 0 {
+		// Bracket is a display flag ("show the path in bracket notation"); it is only meaningful
+		// as a leading fragment, so it is only generated there
+		if i == 0 && rapid.IntRange(0, 9).Draw(t, "brk") == 0 {
 			p = append(p, Frag{K: "bracket"})
 		}
 		p = append(p, drawFrag(t, o, kind))
